@@ -97,7 +97,7 @@ class Contract:
     def __init__(self, qual, params, returns=None, requires=(), ensures=(), raises=None, modifies=(),
                  loops=None, locals=None, decreases=None, kind='function', yields=None, pure=True,
                  exc_ensures=None, unfold=2, uses=(), notes='', properties=(), selftype=None, opaque=False,
-                 merge=True):
+                 merge=True, kf_region=None, kf_id=None, strmode=None, allow_overapprox_regex=False):
         self.qual = qual
         self.params = params            # ordered dict name -> T | ObjType
         self.returns = returns          # T or None
@@ -116,13 +116,24 @@ class Contract:
         self.properties = list(properties)
         self.opaque = opaque            # contract assumed, body not verified (must be listed as trusted)
         self.merge = merge
+        self.kf_region = kf_region      # known-finding region (spec expr over params): ensures hold outside it
+        self.kf_id = kf_id
+        self.strmode = strmode
+        self.allow_overapprox_regex = allow_overapprox_regex
 
 
-_fresh = itertools.count()
+_fresh = [0]
+
+
+def reset_fresh():
+    """Names of fresh symbols restart for every function so that the VCs (and the solver's behaviour on them)
+    do not depend on what the worker process verified before."""
+    _fresh[0] = 0
 
 
 def fresh_name(base):
-    return f'{base}!{next(_fresh)}'
+    _fresh[0] += 1
+    return f'{base}!{_fresh[0]}'
 
 
 def fresh(t: T, base='v'):
@@ -185,8 +196,6 @@ class Engine:
 
     def oblige_raw(self, st, kind, goal, desc):
         goal = z3.simplify(goal)
-        if z3.is_true(goal):
-            return
         oid = f'{self.c.qual.split(".")[-1]}/L{self.cur_line}/{kind}#{next(self.oid)}'
         self.obligations.append(Obligation(oid, kind, desc, list(st.pc), goal, self.c.qual, self.cur_line))
 
@@ -200,6 +209,12 @@ class Engine:
             if isinstance(t, (TUnint, TRec)) and t.none is not None:
                 return V(t, t.none)
             raise Unsupported(f'None where {t.name} expected', node)
+        if isinstance(v, VPy) and isinstance(v.obj, (tuple, list)) and any(isinstance(x, V) for x in v.obj):
+            tt = t.inner if isinstance(t, TOpt) else t
+            if isinstance(tt, TSeq):
+                items = [self.coerce(x if isinstance(x, (V, VNone, VPy)) else const_value(x), tt.elem, node) for x in v.obj]
+                sv = V(tt, self.mk_seq(tt, [i.term for i in items]))
+                return sv if tt is t else V(t, t.some(sv.term))
         if isinstance(v, VPy):
             lifted = self.lift_py(v.obj, t, node)
             if lifted is not None:
@@ -207,6 +222,12 @@ class Engine:
             raise Unsupported(f'cannot use {v!r} as {t.name}', node)
         if isinstance(v, VObj):
             raise Unsupported(f'object {v.name} where {t.name} expected', node)
+        if isinstance(v.t, TOpt) and v.t.inner == t:
+            # implicit narrowing Opt[T] -> T: the value must not be None here
+            cs = getattr(self, 'cur_state', None)
+            if cs is not None and not self.spec_mode:
+                self.oblige(cs, 'not-none', z3.Not(v.t.is_none(v.term)), f'Optional value used as {t.name} is not None')
+            return V(t, v.t.val(v.term))
         if isinstance(t, TOpt):
             if isinstance(v.t, TOpt):
                 raise Unsupported(f'{v.t.name} where {t.name} expected', node)
@@ -369,6 +390,9 @@ class Engine:
         st = State()
         args = self.fnode.args
         pnames = [a.arg for a in args.posonlyargs + args.args + args.kwonlyargs]
+        if getattr(self, 'fn_kind', None) == 'classmethod' and pnames and pnames[0] not in c.params:
+            st.env[pnames[0]] = VPy(('class', self.cls_qual), self.cls_qual)
+            pnames = pnames[1:]
         for p in pnames:
             if p not in c.params:
                 raise Unsupported(f'parameter {p} has no declared sort in the contract', self.fnode)
@@ -429,6 +453,12 @@ class Engine:
         else:
             result = o.value if o.kind == 'return' and o.value is not None else VNone()
             if c.returns is not None:
+                if (isinstance(result, V) and isinstance(result.t, TOpt) and isinstance(c.returns, TOpt)
+                        and result.t != c.returns):
+                    # `return x` where x: Opt[A] but the function returns Opt[B]: only legal when x is None here
+                    self.oblige_raw(st, 'return-sort', result.t.is_none(result.term),
+                                    f'value of sort {result.t.name} returned as {c.returns.name} is None')
+                    result = VNone()
                 result = self.coerce(result, c.returns)
             elif not isinstance(result, VNone):
                 raise Unsupported('function returns a value but the contract declares none')
@@ -437,9 +467,17 @@ class Engine:
             if cond and cond.startswith('iff:'):
                 g = self.spec_bool(cond[4:], st)
                 self.oblige_raw(st, 'must-raise', z3.Not(g), f'returns normally although {a} is required when: {cond[4:]}')
+        region = None
+        if c.kf_region:
+            es = st.copy()
+            es.env = dict(st.old_env)
+            es.heap = dict(st.old_heap)
+            region = self.spec_bool(c.kf_region, es)
         for e in c.ensures:
             g = self.spec_bool(e, st, {'result': result})
-            self.oblige_raw(st, 'post', g, f'ensures {e}')
+            if region is not None:
+                g = z3.Or(region, g)
+            self.oblige_raw(st, 'post', g, f'ensures {e}' + (f'   [outside known-finding region {c.kf_id}]' if region is not None else ''))
         for m in self.frame_fields(st):
             pass
         self.check_frame(st)
@@ -494,6 +532,7 @@ class Engine:
 
     def exec_stmt(self, s, st: State):
         self.cur_line = getattr(s, 'lineno', self.cur_line)
+        self.cur_state = st
         m = getattr(self, 'st_' + type(s).__name__, None)
         if m is None:
             raise Unsupported(f'statement {type(s).__name__}', s)
